@@ -15,7 +15,8 @@ EXPLANATION = (
     "push_remove_conn(X) is controlled by a failed send to X itself or by a handler error of a message sent by X, and in the connection task the "
     "teardown edge after send_message must have only transport causes. The last rule FAILS on today's tree for VersionedMessage::convert_value (a foreign "
     "payload) — recorded as known finding F3; (R6) the premise of the panicking arm of Channel::close on the client-driven path: check_close never answers Ok "
-    "for an end that is already Closed and the CloseChannelEnd handler reaches Channel::close only on that Ok. Not decided: panics behind internal-key expects and Channel::close's unreachable arms over all histories; hangs."
+    "for an end that is already Closed and the CloseChannelEnd handler reaches Channel::close only on that Ok; (R7) the premises of the internal-key "
+    "expects — co-mutation of the call bookkeeping (C02-R4) and of the registries (C03-R1) — re-evaluated as obligations of this property. Not decided: panics behind internal-key expects and Channel::close's unreachable arms over all histories; hangs."
 )
 
 DIRECT = re.compile(r"^(req(\.[\w.]+)?|id|msg(\.[\w.]+)?)$")
@@ -193,6 +194,25 @@ def run(rep):
     # Channel::close panics (unreachable!()) when the named end is already Closed. A client reaches it through
     # CloseChannelEnd -> check_close == Ok -> remove_channel_end -> close: check_close must not answer Ok for a Closed end.
     r6(rep, prog, M)
+
+    # ---- R7 premises of the internal-key expect()s -------------------------------------------------------
+    # R1 classifies 30+ unwrapped lookups as keyed by values read from another broker map; they cannot panic only while
+    # those maps are mutated together. The co-mutation rules are decided by C02-R4 (call bookkeeping) and C03-R1
+    # (registries); they are re-evaluated here as obligations of this property, because a broken premise is a broker panic.
+    import importlib
+    for (mod, rules) in (("c02", ("C02-R4",)), ("c03", ("C03-R1",))):
+        sub = engine.Report(rep.prop, rep.tier, rep.seed)
+        sub.matrix = rep.matrix
+        importlib.import_module(mod).run(sub)
+        for rl in rules:
+            pr = sub.per_rule.get(rl, {"obligations": 0, "discharged": 0})
+            for _ in range(pr["discharged"]):
+                rep.ok("C11-R7", "%s:premise" % rl, None, nontrivial=False, sample=False)
+            if not rep.matrix:
+                rep.floor("C11-R7", "premise obligations taken from %s" % rl, pr["obligations"], 10)
+        for v in sub.violations:
+            if v["rule"] in rules:
+                rep.fail("C11-R7", v["def"], "%s:%s" % (v["rule"], v["instance"]), "premise of the internal-key expect()s (a stale key makes a later `.expect(\"inconsistent state\")` panic the broker): " + v["msg"], line=v.get("line"))
 
 
 CHS = "aldrin_broker::broker::channel::"
